@@ -44,6 +44,7 @@ def _strategy():
         "cycle_mode": st.sampled_from(["long", "long", "short"]),
         "nsub": st.integers(1, 2),
         "stop_mode": st.sampled_from(["app", "app", "in_callback"]),
+        "sa": st.sampled_from([0x28, 0x28, 0x00, 0x01, 0xCA, 0xFD]),
         "lat": st.lists(st.sampled_from([1e-6, 0.0002, 0.001, 0.005]), min_size=1, max_size=2),
         "eps": st.lists(st.sampled_from([0.0, 1e-5, 1e-3]), min_size=1, max_size=2),
     })
@@ -161,6 +162,7 @@ class C16:
     # --------------------------------------------------------------- end to end
     def _e2e(self, p, V):
         fd = p["dll"] == "j1939-22"
+        SA_S = p.get("sa", 0x28)
         j = W.load()
         lat = {"R0": p["lat"], "R1": p["lat"][::-1]}
         w = W.World(latency=lat, wake_eps=p["eps"], dispatch=[0.0, 1e-5])
